@@ -52,6 +52,17 @@ class Site:
     def answer(self, url):
         p = self.pages.get(url)
         if p is None:
+            # adversarial endless structures: /deep/<k>.json references /deep/<k+1>.json (and itself), /chain/<k> redirects to /chain/<k+1>
+            m = re.match(r"^(https?://[^/]+)/deep/(\d+)\.json$", url)
+            if m:
+                k = int(m.group(2))
+                return {"status": 200, "ctype": "application/json", "kind": "json", "assets": [], "outlinks": [],
+                        "body": json.dumps({"next": "%s/deep/%d.json" % (m.group(1), k + 1), "self": url, "img": "%s/deep/i%d.png" % (m.group(1), k)})}
+            m = re.match(r"^(https?://[^/]+)/chain/(\d+)$", url)
+            if m:
+                return {"status": 302, "ctype": "text/html", "kind": "html", "assets": [], "outlinks": [], "body": "",
+                        "location": "/chain/%d" % (int(m.group(2)) + 1)}
+        if p is None:
             return {"status": 404, "ctype": "text/html", "body": "<html><body>not found</body></html>", "assets": [], "outlinks": [], "kind": "html"}
         if p.get("body") is None:
             p = dict(p)
@@ -125,8 +136,13 @@ def run_seed(run, cfg, site, seed_url, seed_id="seed", hops=0, max_passes=12, dc
         run.both({"op": "check"})
         lvl = max_depth(tree)
         todo = [n for n, d, _ in walk(tree) if n["st"] == "PreProcessed" and d == lvl]
+        anc = {}
+        for n, d, par in walk(tree):
+            anc[n["id"]] = (anc[par["id"]] + [par]) if par else []
         for n in todo:
-            trace["requests"].append({"id": n["id"], "canon": n["canon"], "oracle": oracle.get(n["id"])})
+            trace["requests"].append({"id": n["id"], "canon": n["canon"], "oracle": oracle.get(n["id"]), "pass": p, "hops": n["hops"],
+                                      "redirects": n["redirects"], "level": sum(1 for a in anc[n["id"]] if a["st"] != "GotRedirected"),
+                                      "chain": [a["canon"] for a in anc[n["id"]]]})
         # --- archive (scripted answers)
         outcomes_impl, outcomes_model = {}, {}
         answers = {}
@@ -170,6 +186,7 @@ def run_seed(run, cfg, site, seed_url, seed_id="seed", hops=0, max_passes=12, dc
             rawh, hp, viah = o.split("|")
             outs.append({"raw": unhex(rawh), "hops": int(hp), "via": unhex(viah)})
         trace.setdefault("open_bodies", []).append(int(m.group(2)) if m else -1)
+        trace.setdefault("outlinks", []).append(outs)
         run.outlinks += outs
         for o in outs:
             if dc_match(o["raw"]):
@@ -179,6 +196,9 @@ def run_seed(run, cfg, site, seed_url, seed_id="seed", hops=0, max_passes=12, dc
         for n, _, _ in walk(tree):
             if n["id"] in before:
                 new = [k for k in n["kids"] if k["id"] not in before[n["id"]]]
+                for k in new:
+                    trace.setdefault("created", []).append({"raw": k["raw"], "redirects": k["redirects"], "hops": k["hops"], "parent_st": n["st"],
+                                                            "parent_redirects": n["redirects"], "parent_hops": n["hops"], "parent": n["canon"]})
                 e = {"assets": [[k["id"], k["raw"]] for k in new],
                      "outlinks": [o["raw"] for o in outs if o["via"] == canon_of.get(n["id"]) and n["id"] in answers], "assetOutlinks": []}
                 if e["assets"] or e["outlinks"]:
